@@ -601,8 +601,8 @@ func c05CmpOK(x, bound *big.Float, incl bool, lower bool) bool {
 
 // c05Adm reads membership of x in the real result w.  structural=false: through the
 // public accessors of Range() exactly as they report (an absent bound is reported
-// as an exclusive infinity); structural=true: an absent bound (seen in the
-// refinement struct) means unbounded.
+// as an inclusive infinity since bb8bc8c/bc44d9b; it used to be exclusive);
+// structural=true: an absent bound (seen in the refinement struct) means unbounded.
 func c05Adm(w cty.Value, x c05Sample, structural bool) bool {
 	w, _ = w.Unmark()
 	if w.IsKnown() {
@@ -683,7 +683,21 @@ func c05SplitTop(s string) []string {
 
 // ---- sample generation --------------------------------------------------------
 
-var c05Eps = new(big.Float).SetMantExp(big.NewFloat(1), -80)
+const c05SamplePrec = 192
+
+// c05EpsOf: a step well below g's own resolution (1/16 ulp; 2^-80 for zero) and the
+// precision at which g ± step is exact.
+func c05EpsOf(g *big.Float) (*big.Float, uint) {
+	if g.Sign() == 0 {
+		return new(big.Float).SetMantExp(big.NewFloat(1), -80), 64
+	}
+	p := g.Prec()
+	if p < 8 {
+		p = 8
+	}
+	e := g.MantExp(nil) // g = m·2^e, 0.5 <= |m| < 1
+	return new(big.Float).SetMantExp(big.NewFloat(1), e-int(p)-4), p + 16
+}
 
 func c05NumSample(f *big.Float) c05Sample {
 	return c05Sample{kind: "num", f: f, val: cty.NumberVal(new(big.Float).Copy(f))}
@@ -693,11 +707,15 @@ func c05Samples(t cty.Type, calls []c05Call, extra []cty.Value) []c05Sample {
 	out := []c05Sample{{kind: "null", val: cty.NullVal(t)}}
 	switch c05TyKind(t) {
 	case "num":
+		// Sample precision: Value.Equals formats non-integers with math/big's shortest-decimal
+		// algorithm, whose cost grows with the square of the precision, so the samples are held at
+		// c05SamplePrec bits (not thousands); neighbours of a bound sit a fraction of the bound's own
+		// ulp away, at the bound's precision + 16 bits.
 		var base []*big.Float
 		for _, k := range []int64{-2, -1, 0, 1, 2} {
-			base = append(base, new(big.Float).SetPrec(4096).SetInt64(k))
+			base = append(base, new(big.Float).SetPrec(c05SamplePrec).SetInt64(k))
 		}
-		base = append(base, new(big.Float).SetPrec(4096).SetFloat64(0.5), new(big.Float).SetPrec(4096).SetFloat64(-0.5))
+		base = append(base, new(big.Float).SetPrec(c05SamplePrec).SetFloat64(0.5), new(big.Float).SetPrec(c05SamplePrec).SetFloat64(-0.5))
 		var args []*big.Float
 		addArg := func(a c05Arg) {
 			if f := a.f(); f != nil && !f.IsInf() && len(args) < 6 {
@@ -721,10 +739,15 @@ func c05Samples(t cty.Type, calls []c05Call, extra []cty.Value) []c05Sample {
 		for _, f := range args {
 			// the sample equal to a bound keeps the bound's precision (Value.Equals is only exact at equal precision)
 			g := new(big.Float).Copy(f)
-			base = append(base, g, new(big.Float).SetPrec(4096).Add(g, c05Eps), new(big.Float).SetPrec(4096).Sub(g, c05Eps))
+			eps, p := c05EpsOf(g)
+			base = append(base, g, new(big.Float).SetPrec(p).Add(g, eps), new(big.Float).SetPrec(p).Sub(g, eps))
 		}
 		for i := 0; i+1 < len(args); i++ {
-			m := new(big.Float).SetPrec(4096).Add(args[i], args[i+1])
+			p := args[i].Prec()
+			if q := args[i+1].Prec(); q > p {
+				p = q
+			}
+			m := new(big.Float).SetPrec(p+16).Add(args[i], args[i+1])
 			m.Quo(m, big.NewFloat(2))
 			base = append(base, m)
 		}
@@ -896,6 +919,9 @@ func c05KindsSig(cs []c05Call) string {
 	return strings.Join(ks, ",")
 }
 
+const c05DroppedSig = "exclusive-singleton-infinity-dropped"
+const c05InexactPrefix = "inexact-number-equals:"
+
 // c05Dropped: an exclusive bound at the singleton infinity of its own side — the builder drops it.
 func c05Dropped(c c05Call) bool {
 	return (c.k == "lo" && c.a.tag == "ninf" && !c.incl) || (c.k == "hi" && c.a.tag == "pinf" && !c.incl)
@@ -921,6 +947,19 @@ type c05Judge struct {
 }
 
 func (j *c05Judge) fail(site, sig, what string, recv c05Recv, cs []c05Call, outcome string) {
+	if strings.HasPrefix(sig, c05InexactPrefix) && site != "includes" {
+		// one root cause, one (site, sig): the builder compares bounds with Value.Equals, which compares
+		// shortest decimal texts.  (ValueRange.Includes has the same cause at another call site and keeps
+		// its own entry.)
+		what = "[observed at " + site + " / " + strings.TrimPrefix(sig, c05InexactPrefix) + "] " + what
+		site, sig = "builder-number-compare", "inexact-number-equals"
+	}
+	if sig == c05DroppedSig && site != "exact" {
+		// one root cause, one (site, sig): the builder drops an exclusive bound at the singleton
+		// infinity of its own side.  Where the consequence was observed goes into the description.
+		what = "[observed at " + site + "] " + what
+		site = "exact"
+	}
 	j.ctx.Fail(Failure{Site: site, Sig: sig, What: what, Input: encVal(recv.v) + " " + c05Wires(cs),
 		GoLit: c05Lit(recv.lit, cs), Outcome: outcome})
 }
@@ -933,6 +972,11 @@ func (j *c05Judge) run(recv c05Recv, calls []c05Call) {
 	impl := c05Impl(res, panicAt)
 	rw := encVal(recv.v)
 	ctx.Add("rfn.run", impl, rw, c05Wires(calls))
+	if tk == "num" {
+		// the same case under the exact-where-it-answers equality oracle (the instance the theorems
+		// are tied through); the driver answers "unmodelled" where the decimal text could matter
+		ctx.Add("rfn.runx", impl, rw, c05Wires(calls))
+	}
 	ctx.Tag("recv:" + recv.tag + ":" + tk)
 	if panicAt >= 0 {
 		ctx.Tag("outcome:panic")
@@ -1021,7 +1065,7 @@ func (j *c05Judge) run(recv c05Recv, calls []c05Call) {
 		inexact := c05InexactEquals(statedNums)
 		sigX := ""
 		if inexact {
-			sigX = "inexact-number-equals:"
+			sigX = c05InexactPrefix
 		}
 		if okPrev {
 			// range_reports_exact / faithful: the reported range is exactly what the stated constraints imply
@@ -1068,7 +1112,10 @@ func (j *c05Judge) run(recv c05Recv, calls []c05Call) {
 							j.fail("includes", sig, "Range().Includes answers False for a value the stated constraints admit: "+x.wire(), recv, calls[:i], encVal(wPrev))
 						}
 						if !incFalse && !want && !u.IsKnown() && c05Conforms(t, x) && x.kind != "other" {
-							sig := sigX + "includes-admits-excluded:" + tk + ":" + c05KindsSig(stated)
+							sig := "includes-admits-excluded:" + tk + ":" + c05KindsSig(stated)
+							if sigX != "" {
+								sig = sigX + "includes-admits-excluded:" + tk // the root cause says it all
+							}
 							if c05DroppedAt(stated, x) {
 								sig = "exclusive-singleton-infinity-dropped"
 							}
@@ -1079,15 +1126,20 @@ func (j *c05Judge) run(recv c05Recv, calls []c05Call) {
 			}
 			// collapse to known only if a single value remains
 			if u, _ := wPrev.Unmark(); u.IsKnown() && !spec.singleton(tk) {
-				j.fail("newvalue-known-exact", "collapse-not-singleton:"+tk, "NewValue returned a known value although the stated constraints admit more than one", recv, calls[:i], encVal(wPrev))
+				j.fail("newvalue-known-exact", sigX+"collapse-not-singleton:"+tk, "NewValue returned a known value although the stated constraints admit more than one", recv, calls[:i], encVal(wPrev))
 			}
 		}
 		if i == nOK {
 			break
 		}
-		// step i: calls[i] succeeded
+		// step i: calls[i] succeeded; the numbers compared now include its arguments
 		c := calls[i]
 		spec.add(c)
+		inexact = c05InexactEquals(c05CallNums(append(append([]c05Call{}, stated...), c)))
+		sigX = ""
+		if inexact {
+			sigX = c05InexactPrefix
+		}
 		emptyAfter, shape := spec.nonNullEmpty(tk)
 		nullGone := (c.k == "nn" && spec.isNull) || (c.k == "nl" && spec.notNull)
 		if nullGone {
@@ -1354,6 +1406,22 @@ func runC05(ctx *Ctx) {
 		c05Seqs(infAlpha, 2, func(cs []c05Call) { enum.run(r, cs); cnt++ })
 	}
 	scope = append(scope, "number: all sequences of length<=2 over bounds at cty.NegativeInfinity/PositiveInfinity (the singletons), other infinite values and 0, incl./excl.")
+
+	// numbers that print alike at different precisions (the text-based Value.Equals): 0.1 parsed to 512 bits,
+	// 0.1 as float64, and one number held at two precisions
+	tieAlpha := []c05Call{nn}
+	p01 := cty.MustParseNumberVal("0.1")
+	f01 := cty.NumberFloatVal(0.1)
+	w01 := cty.NumberVal(new(big.Float).SetPrec(100).SetFloat64(0.1)) // the float64 value, held at 100 bits
+	for _, v := range []cty.Value{p01, f01, w01} {
+		for _, inc := range []bool{true, false} {
+			tieAlpha = append(tieAlpha, c05Call{k: "lo", a: c05Known(v), incl: inc}, c05Call{k: "hi", a: c05Known(v), incl: inc})
+		}
+	}
+	for _, r := range []c05Recv{numRecvs[0], c05KnownRecv(f01)} {
+		c05Seqs(tieAlpha, 2, func(cs []c05Call) { enum.run(r, cs); cnt++ })
+	}
+	scope = append(scope, "number: all sequences of length<=2 over bounds at 0.1 (512-bit decimal), 0.1 (float64) and the float64 value held at 100 bits, incl./excl., on an unknown and on the known float64 0.1")
 
 	// ---------- (b) random longer sequences
 	rnd := &c05Judge{ctx: ctx, allSteps: true, wireLines: 2}
